@@ -55,23 +55,38 @@ Proof.
   unfold wf_ext_opt, ext_items. destruct flag; [|reflexivity]. intros (e & -> & W). apply (afe_bits e W).
 Qed.
 
-Lemma stuff_bits n : items_bits (repeat_item n (wu8 255)) = fbits (repeat (8%nat, 255) (Z.to_nat n)).
-Proof. unfold repeat_item. symmetry. apply fbits_repeat. Qed.
-
-Lemma af_bits af : wf_af af -> ref_af_length af <= 255 -> items_bits (af_items af) = fbits (ref_af_fields af).
+Lemma stuff_bits n : items_bits (repeat_item n (wu8 255)) = bits_of_bytes (repeat 255 (Z.to_nat n)).
 Proof.
-  unfold wf_af, af_items, ref_af_fields. destruct (PacketAdaptationField_IsOneByteStuffing af) eqn:NS; intros W Hle; [reflexivity|].
-  unfold af_body_items, af_head, af_flags, af_pcr, af_opcr, af_sc, af_tpd, af_ext, af_stuff.
+  unfold repeat_item. induction (Z.to_nat n) as [|k IH]; [reflexivity|].
+  cbn [repeat]. unfold items_bits, bits_of_bytes in *. cbn [flat_map]. rewrite IH. reflexivity.
+Qed.
+
+(* the adaptation field in front of its stuffing bytes *)
+Lemma af_prefix_bits af : wf_af af -> ref_af_length af <= 255 ->
+  items_bits (af_prefix af) = fbits (ref_af_prefix_fields af).
+Proof.
+  unfold wf_af, af_prefix, ref_af_prefix_fields. destruct (PacketAdaptationField_IsOneByteStuffing af) eqn:NS; intros W Hle; [reflexivity|].
+  unfold af_prefix_items, af_items_with, af_head, af_flags, af_pcr, af_opcr, af_sc, af_tpd, af_ext.
   rewrite (calc_af_eq af W NS Hle).
   rewrite !items_bits_app, !fbits_app.
   rewrite (pcr_bits _ _ (wfa_pcr af W)), (pcr_bits _ _ (wfa_opcr af W)), sc_bits, (tpd_bits _ _ (wfa_tpd af W)),
-    (ext_bits _ _ (wfa_ext af W)), stuff_bits.
-  rewrite app_assoc. f_equal. bits_norm. reflexivity.
+    (ext_bits _ _ (wfa_ext af W)).
+  change (items_bits []) with (@nil bool). rewrite app_assoc. f_equal.
+  - bits_norm. reflexivity.
+  - rewrite app_nil_r. reflexivity.
 Qed.
 
-Lemma payload_bits p : wf_packet p -> items_bits (payload_items p) = fbits (byte_fields (Packet_Payload p)).
+Lemma af_stuffing_bits af : wf_af af ->
+  items_bits (af_stuffing af) = bits_of_bytes (repeat 255 (Z.to_nat (PacketAdaptationField_StuffingLength af))).
 Proof.
-  intros W. pose proof (wfp_payload p W) as P. unfold payload_items. rewrite fbits_bytes.
+  unfold wf_af, af_stuffing. destruct (PacketAdaptationField_IsOneByteStuffing af); intros W.
+  - destruct W as (_ & _ & _ & _ & -> & _). reflexivity.
+  - apply stuff_bits.
+Qed.
+
+Lemma payload_bits p : wf_packet p -> items_bits (payload_items p) = bits_of_bytes (Packet_Payload p).
+Proof.
+  intros W. pose proof (wfp_payload p W) as P. unfold payload_items.
   destruct (PacketHeader_HasPayload (Packet_Header p)).
   - unfold items_bits. cbn [flat_map item_bits]. apply app_nil_r.
   - rewrite P. reflexivity.
@@ -79,22 +94,42 @@ Qed.
 
 (* ---------------- the whole packet ---------------- *)
 
+(* the reference field list with any stuffing bytes: the writer's bits up to the stuffing, the stuffing, the payload *)
+Lemma packet_bits_stuffed p sb : wf_packet p -> Z.of_nat (length sb) = stuffing_of p ->
+  fbits (ref_packet_fields_stuffed p sb) =
+  items_bits (packet_prefix_items p) ++ bits_of_bytes sb ++ bits_of_bytes (Packet_Payload p).
+Proof.
+  intros W Hsb. pose proof (wfp_af p W) as A. pose proof (wfp_size p W) as S.
+  unfold packet_prefix_items, ref_packet_fields_stuffed, af_opt_prefix, stuffing_of in *.
+  change ((8%nat, 71) :: ?x) with ([(8%nat, 71)] ++ x).
+  rewrite !items_bits_app, !fbits_app, header_bits, fbits_bytes, <- !app_assoc.
+  f_equal. f_equal.
+  destruct (PacketHeader_HasAdaptationField (Packet_Header p)).
+  - destruct A as (af & EA & Wa). rewrite EA in *. cbn [ref_af_size] in S.
+    rewrite fbits_app, fbits_bytes, (af_prefix_bits af Wa) by lia. rewrite <- app_assoc. reflexivity.
+  - rewrite A in *. destruct sb; [reflexivity | cbn [length] in Hsb; lia].
+Qed.
+
+Lemma ff_stuffing_length p : wf_packet p -> Z.of_nat (length (ff_stuffing p)) = stuffing_of p.
+Proof. intros W. pose proof (stuffing_of_range p W). unfold ff_stuffing. rewrite repeat_length. lia. Qed.
+
+Lemma packet_items_split p : wf_packet p ->
+  items_bits (packet_items p) =
+  items_bits (packet_prefix_items p) ++ bits_of_bytes (ff_stuffing p) ++ bits_of_bytes (Packet_Payload p).
+Proof.
+  intros W. pose proof (wfp_af p W) as A.
+  unfold packet_items, packet_prefix_items. rewrite af_opt_items_split.
+  rewrite !items_bits_app, (payload_bits p W), <- !app_assoc. do 4 f_equal.
+  unfold ff_stuffing, stuffing_of.
+  destruct (PacketHeader_HasAdaptationField (Packet_Header p)).
+  - destruct A as (af & -> & Wa). apply (af_stuffing_bits af Wa).
+  - rewrite A. reflexivity.
+Qed.
+
 Theorem packet_bits p : wf_packet p -> items_bits (packet_items p) = fbits (ref_packet_fields p).
 Proof.
-  intros W. pose proof (wfp_af p W) as A. pose proof (wfp_size p W) as S.
-  unfold packet_items, ref_packet_fields, af_opt_items.
-  change ((8%nat, 71) :: ref_header_fields (Packet_Header p) ++
-          (if PacketHeader_HasAdaptationField (Packet_Header p)
-           then match Packet_AdaptationField p with Some af => ref_af_fields af | None => [] end else []) ++
-          byte_fields (Packet_Payload p))
-    with ([(8%nat, 71)] ++ ref_header_fields (Packet_Header p) ++
-          (if PacketHeader_HasAdaptationField (Packet_Header p)
-           then match Packet_AdaptationField p with Some af => ref_af_fields af | None => [] end else []) ++
-          byte_fields (Packet_Payload p)).
-  rewrite !items_bits_app, !fbits_app, header_bits, (payload_bits p W).
-  f_equal. f_equal. f_equal.
-  destruct (PacketHeader_HasAdaptationField (Packet_Header p)); [|reflexivity].
-  destruct A as (af & EA & Wa). rewrite EA in *. cbn [ref_af_size] in S. apply (af_bits af Wa). lia.
+  intros W. unfold ref_packet_fields. rewrite (packet_bits_stuffed p _ W (ff_stuffing_length p W)).
+  apply (packet_items_split p W).
 Qed.
 
 Lemma packet_items_ok p : wf_packet p -> items_bytes_ok (packet_items p).
@@ -119,6 +154,30 @@ Proof.
   rewrite (write_ref_packet p W) in Hw. injection Hw as Hw. subst bs. exact Hp.
 Qed.
 
+(* the reference encoding with arbitrary stuffing bytes, as bytes *)
+Lemma ref_bytes_stuffed p sb : wf_packet p -> Z.of_nat (length sb) = stuffing_of p -> bytes_ok sb ->
+  ref_packet_bytes_stuffed p sb = bytes_of_items (packet_prefix_items p) ++ sb ++ Packet_Payload p.
+Proof.
+  intros W Hsb Ob. unfold ref_packet_bytes_stuffed. rewrite (packet_bits_stuffed p sb W Hsb).
+  pose proof (af_size_range p W) as R. pose proof (stuffing_of_range p W) as SR.
+  assert (Hal : aligned (packet_prefix_items p) (1 + (3 + Z.to_nat (ref_af_size (Packet_AdaptationField p) - stuffing_of p)))).
+  { unfold packet_prefix_items. repeat apply aligned_app;
+      [apply wu8_aligned | apply (header_aligned (Packet_Header p)) | apply (af_opt_prefix_aligned p W)]. }
+  destruct Hal as [Hl Ho].
+  rewrite (bytes_of_bits_app _ _ _ Hl), <- (chunks_concat _ Ho). f_equal.
+  rewrite (bytes_of_bits_app (length sb)) by apply bits_of_bytes_length.
+  rewrite (bytes_of_bits_of_bytes sb Ob). f_equal.
+  apply bytes_of_bits_of_bytes.
+  pose proof (wfp_payload p W) as P. destruct (PacketHeader_HasPayload (Packet_Header p)); [exact P | rewrite P; constructor].
+Qed.
+
+(* parsing does not depend on the values of the stuffing bytes *)
+Theorem parse_ref_any_stuffing p sb : wf_packet p -> Z.of_nat (length sb) = stuffing_of p -> bytes_ok sb ->
+  parse_packet_bytes (ref_packet_bytes_stuffed p sb) = Ok (observed p).
+Proof.
+  intros W Hsb Ob. rewrite (ref_bytes_stuffed p sb W Hsb Ob). apply (parse_any_stuffing p sb W Hsb).
+Qed.
+
 (* ---------------- re-emission ---------------- *)
 
 (* the derived fields do not take part in the reference encoding, and filling them in keeps a packet conformant *)
@@ -131,9 +190,9 @@ Proof.
   destruct (PacketAdaptationField_AdaptationExtensionField af); reflexivity.
 Qed.
 
-Lemma ref_af_fields_observed af : ref_af_fields (observed_af af) = ref_af_fields af.
+Lemma ref_af_fields_observed af : ref_af_prefix_fields (observed_af af) = ref_af_prefix_fields af.
 Proof.
-  unfold ref_af_fields. rewrite ref_af_length_observed. unfold observed_af; cbn -[Z.add Z.of_nat Z.to_nat repeat].
+  unfold ref_af_prefix_fields. rewrite ref_af_length_observed. unfold observed_af; cbn -[Z.add Z.of_nat Z.to_nat repeat].
   destruct (PacketAdaptationField_AdaptationExtensionField af); reflexivity.
 Qed.
 
@@ -163,7 +222,8 @@ Qed.
 
 Lemma ref_packet_bytes_observed p : ref_packet_bytes (observed p) = ref_packet_bytes p.
 Proof.
-  unfold ref_packet_bytes, ref_packet_fields, observed; cbn [Packet_Header Packet_AdaptationField Packet_Payload].
+  unfold ref_packet_bytes, ref_packet_fields, ref_packet_fields_stuffed, ff_stuffing, stuffing_of, observed;
+    cbn [Packet_Header Packet_AdaptationField Packet_Payload].
   destruct (Packet_AdaptationField p) as [af|]; cbn [option_map]; [rewrite ref_af_fields_observed|]; reflexivity.
 Qed.
 
